@@ -76,7 +76,7 @@ func (w *walker) visit(v types.XValue, path, expr string, depth int) {
 	if depth > w.deepest {
 		w.deepest = depth
 	}
-	n := wnode{path: path, expr: expr, kind: types.Describe(v)}
+	n := wnode{path: path, expr: expr, kind: kindOf(v)}
 	render := types.Render(v)
 	format := types.Format(w.env, v)
 	js := ""
@@ -91,6 +91,8 @@ func (w *walker) visit(v types.XValue, path, expr string, depth int) {
 	h.Write([]byte(format))
 	h.Write([]byte{0})
 	h.Write([]byte(js))
+	h.Write([]byte{0})
+	h.Write([]byte(types.Describe(v))) // what error messages quote
 	n.hash = h.Sum64()
 	n.render, n.format, n.json = trunc(render, keepChars), trunc(format, keepChars), trunc(js, keepChars)
 
@@ -165,6 +167,35 @@ func (w *walker) visit(v types.XValue, path, expr string, depth int) {
 	}
 }
 
+func kindOf(v types.XValue) string {
+	if types.IsNil(v) {
+		return "null"
+	}
+	switch v.(type) {
+	case *types.XText:
+		return "text"
+	case *types.XNumber:
+		return "number"
+	case *types.XBoolean:
+		return "boolean"
+	case *types.XDateTime:
+		return "datetime"
+	case *types.XDate:
+		return "date"
+	case *types.XTime:
+		return "time"
+	case *types.XObject:
+		return "object"
+	case *types.XArray:
+		return "array"
+	case *types.XFunction:
+		return "function"
+	case *types.XError:
+		return "error"
+	}
+	return fmt.Sprintf("%T", v)
+}
+
 // urnBearing says whether a context path names a URN value by construction of the context:
 // *.urn, *.urns[i], urns.<scheme>, and the same below parent/child/run.
 func urnBearing(path string) bool {
@@ -204,6 +235,7 @@ func genericPath(p string) string {
 // diffWalks compares two walks node by node. Returns the first difference ("" if none).
 type walkDiff struct {
 	path, aspect, a, b string
+	rank               int // lower = closer to the source of the leak
 }
 
 func diffWalks(a, b []wnode) *walkDiff {
@@ -211,14 +243,18 @@ func diffWalks(a, b []wnode) *walkDiff {
 	if len(b) < n {
 		n = len(b)
 	}
-	var firstComposite *walkDiff
+	var firstComposite, bestLeaf *walkDiff
+	bestSegs := 0
 	for i := 0; i < n; i++ {
 		x, y := a[i], b[i]
+		if (x.path != y.path || x.kind != y.kind) && bestLeaf != nil {
+			break // the contexts have different shapes from here on; a differing leaf was already found
+		}
 		if x.path != y.path {
-			return &walkDiff{path: x.path, aspect: "structure", a: x.path, b: y.path}
+			return &walkDiff{path: x.path, aspect: "structure", a: x.path, b: y.path, rank: 500}
 		}
 		if x.kind != y.kind {
-			return &walkDiff{path: x.path, aspect: "type", a: x.kind, b: y.kind}
+			return &walkDiff{path: x.path, aspect: "type", a: x.kind, b: y.kind, rank: 500}
 		}
 		if x.hash != y.hash || x.render != y.render || x.format != y.format || x.json != y.json {
 			d := &walkDiff{path: x.path}
@@ -233,31 +269,64 @@ func diffWalks(a, b []wnode) *walkDiff {
 				d.aspect, d.a, d.b = "text-beyond-preview", x.render, y.render
 			}
 			if x.leaf {
-				return d // the most specific place
-			}
-			if firstComposite == nil {
+				// report the differing leaf closest to the root (first in walk order among those): the most
+				// stable name for the place where the secret shows
+				// — preferring URN-bearing leaves (the source) over copies of them in results / fields
+				segs := strings.Count(x.path, ".")
+				if !urnBearing(x.path) {
+					segs += 100
+				}
+				if bestLeaf == nil || segs < bestSegs {
+					bestLeaf, bestSegs = d, segs
+				}
+			} else if firstComposite == nil {
 				firstComposite = d
 			}
 		}
 	}
+	if bestLeaf != nil {
+		bestLeaf.rank = bestSegs
+		return bestLeaf
+	}
 	if len(a) != len(b) {
-		return &walkDiff{path: "<end>", aspect: "structure", a: fmt.Sprint(len(a), " nodes"), b: fmt.Sprint(len(b), " nodes")}
+		return &walkDiff{path: "<end>", aspect: "structure", a: fmt.Sprint(len(a), " nodes"), b: fmt.Sprint(len(b), " nodes"), rank: 500}
+	}
+	if firstComposite != nil {
+		firstComposite.rank = 1000
 	}
 	return firstComposite
 }
 
-// countDiffs counts the nodes that differ (used by the policy=none control).
-func countDiffs(a, b []wnode) (differing int, urnPaths int) {
-	n := len(a)
-	if len(b) < n {
-		n = len(b)
-	}
-	for i := 0; i < n; i++ {
-		if a[i].path != b[i].path {
-			differing++
-			break
+// sigPath makes a context path coarse enough for a signature: no indices, no scheme / result / field names.
+func sigPath(p string) string {
+	segs := strings.Split(genericPath(p), ".")
+	for i := 1; i < len(segs); i++ {
+		switch segs[i-1] {
+		case "urns":
+			segs[i] = "<scheme>"
+		case "results":
+			segs[i] = "<result>"
+		case "fields":
+			segs[i] = "<field>"
 		}
-		if a[i].hash != b[i].hash {
+	}
+	return strings.Join(segs, ".")
+}
+
+// countDiffs counts the nodes that differ, matched by path (used by the policy=none control, where the twins
+// may legitimately end up with differently shaped contexts).
+func countDiffs(a, b []wnode) (differing int, urnPaths int) {
+	byPath := make(map[string]*wnode, len(b))
+	for i := range b {
+		byPath[b[i].path] = &b[i]
+	}
+	for i := range a {
+		o, ok := byPath[a[i].path]
+		if !ok {
+			differing++
+			continue
+		}
+		if a[i].hash != o.hash {
 			differing++
 			if a[i].leaf && urnBearing(a[i].path) {
 				urnPaths++
